@@ -27,7 +27,7 @@ Proof. unfold same_tables. repeat split; reflexivity. Qed.
 
 Lemma same_trans (a b c : node) : same a b -> same b c -> same a c.
 Proof.
-  unfold same_tables. intros (A1 & A2 & A3 & A4 & A5 & A6 & A7 & A8) (B1 & B2 & B3 & B4 & B5 & B6 & B7 & B8).
+  unfold same_tables. intros (A1 & A2 & A3 & A4 & A4' & A5 & A6 & A7 & A8) (B1 & B2 & B3 & B4 & B4' & B5 & B6 & B7 & B8).
   repeat split; congruence.
 Qed.
 
@@ -107,7 +107,9 @@ Proof.
   - destruct (circuit_hop ci) as [h0|]; cbn [bind]; [|discriminate].
     destruct (addr_eqb src (h_addr h0)).
     + destruct (could_be_ipv8 payload && negb (is_e2e (c_ctype ci))).
-      * destruct (bytes_eqb (n_prefix nd) (slice payload None (Some 22))). { intros H; done_same H. }
+      * destruct (bytes_eqb (n_prefix nd) (slice payload None (Some 22))).
+        { destruct (idx payload 22) as [m|]; cbn [bind]; [|discriminate].
+          destruct (existsb (Z.eqb m) (n_data_ids nd)); intros H; done_same H. }
         destruct (n_tunnel_ep nd); intros H; done_same H.
       * intros H; done_same H.
     + intros H. apply (EX _ H).
